@@ -56,6 +56,27 @@ package main
 //               parameter `nil_T` (so nothing can be proved about a returned nil)
 //   method chains  `x.M(a).P()` as a condition, x a local object: `method_P (method_M x a)` with an
 //               uninterpreted `method_P : Nat → Bool`
+//   elements    a value of the interface type ff.Element is `Option Nat`: `none` = nil, `some w` = an element
+//               as an abstract VALUE word w; `[]ff.Element` is `List (Option Nat)`.  `E.M(args)` on an element
+//               expression E is `method_M w args` with an uninterpreted function parameter (result Bool
+//               for IsZero/IsOne/IsNonzero, else an element) under the guard E ≠ nil (nil dereference);
+//               element arguments are passed as their values under the same guard.  The statement
+//               `b[i].M(args)` (in-place mutation of the element object in slot i) sets slot i to
+//               `some (method_M old args)`.  ASSUMPTIONS: element objects are not shared between slots /
+//               polynomials / the caller (sharing is invisible to values); methods return non-nil elements;
+//               an element obtained from outside (`return f.BaseField().Zero()`) is an uninterpreted
+//               `Option Nat` parameter.
+//   s[:n]       `List.take n s` under the guard 0 ≤ n ≤ len(s).  Go allows n up to the CAPACITY, which lists
+//               do not have: here `none` means "panic, or a reslice into spare capacity (not modelled)";
+//               `cap`, `s[a:b]`, `s[a:]`, three-index slices are refused.  `b = append(b, r...)` is `b ++ r`
+//               (whether the backing array is reused is invisible).
+//   own methods `f.M(args)` on the receiver, M an already translated method of the same type with word/int/
+//               element arguments: its translation applied to the CURRENT values of the receiver fields it
+//               reads; a partial callee is bound before the statement (`match … with | none => panic`); a
+//               callee without results (or returning its receiver) is a statement that rebinds the
+//               receiver fields it assigns.  A method returning its own receiver type returns the fields
+//               it assigns.
+//   if A && B   with B possibly panicking: `if A { if B {S} else {T} } else {T}` (short-circuit evaluation)
 //   division    `/` and `%` are Lean's total operations (x / 0 = 0): a Go division by zero (panic) is NOT
 //               modelled, also not in partial functions
 //   switch      `switch x { case a, b: … }` on a variable (no break/fallthrough)
@@ -281,6 +302,15 @@ func (t *tr) typeOf(e ast.Expr) string {
 				return ty
 			}
 		}
+		if mi, ok := t.ownMethod(v); ok && mi.retGo != "" {
+			return mi.retGo
+		}
+		if sel, ok := v.Fun.(*ast.SelectorExpr); ok && t.typeOf(sel.X) == elemGo {
+			if elemBoolMethods[sel.Sel.Name] {
+				return "bool"
+			}
+			return elemGo
+		}
 		// call of a call (closure application in orders.go) yields int
 		if _, ok := v.Fun.(*ast.CallExpr); ok {
 			return "int"
@@ -296,6 +326,8 @@ func (t *tr) typeOf(e ast.Expr) string {
 			return elemTy(xt)
 		}
 		return "uint"
+	case *ast.SliceExpr:
+		return t.typeOf(v.X)
 	case *ast.SelectorExpr:
 		if src(v) == "bits.UintSize" {
 			return "untyped"
@@ -465,7 +497,7 @@ func (t *tr) expr(e ast.Expr) string {
 			return "(Int.ofNat (popCount " + t.expr(v.Args[0]) + "))"
 		case "append":
 			// append(s, x, y) = s ++ [x, y];  append(s, r...) = s ++ r   (slices are values: Lean lists)
-			if len(v.Args) >= 1 && t.typeOf(v.Args[0]) == "[]uint" {
+			if len(v.Args) >= 1 && isSliceTy(t.typeOf(v.Args[0])) {
 				if v.Ellipsis.IsValid() {
 					if len(v.Args) == 2 {
 						return "(" + t.expr(v.Args[0]) + " ++ " + t.argExpr(v.Args[1]) + ")"
@@ -535,6 +567,22 @@ func (t *tr) expr(e ast.Expr) string {
 					}
 				}
 			}
+		}
+		if mi, ok := t.ownMethod(v); ok {
+			// a translated method of the same type called on the own receiver, in its current state
+			if mi.retGo == "" {
+				return t.fail("mutating method %s called inside an expression", src(v.Fun))
+			}
+			if mi.partial {
+				return t.bindPartial(t.ownCall(mi, v))
+			}
+			return t.ownCall(mi, v)
+		}
+		if val, isBool, ok := t.elemMethod(v); ok {
+			if isBool {
+				return val
+			}
+			return "(some " + val + ")"
 		}
 		if sel, ok := v.Fun.(*ast.SelectorExpr); ok && t.selfName != "" && t.recvName != "" && sel.Sel.Name == t.selfName {
 			// a method calling itself on its own receiver
@@ -607,6 +655,20 @@ func (t *tr) expr(e ast.Expr) string {
 		return t.fail("call %s", src(v))
 	case *ast.FuncLit:
 		return t.funcLit(v)
+	case *ast.SliceExpr:
+		// `s[:n]`: the first n entries; Go allows n up to the CAPACITY, which lists do not have: the
+		// guard is n ≤ len, so `none` here means "panic, or a reslice into spare capacity (not modelled)"
+		if v.Low == nil && v.High != nil && !v.Slice3 && isSliceTy(t.typeOf(v.X)) {
+			xs := t.argExpr(v.X)
+			n := t.argExpr(v.High)
+			if t.typeOf(v.High) == "int" {
+				t.addGuard("(0 ≤ (" + n + " : Int) ∧ (" + n + " : Int) ≤ Int.ofNat (List.length " + xs + "))")
+				return "(List.take (Int.toNat " + n + ") " + xs + ")"
+			}
+			t.addGuard("(" + n + " ≤ List.length " + xs + ")")
+			return "(List.take " + n + " " + xs + ")"
+		}
+		return t.fail("slice expression %s", src(v))
 	}
 	return t.fail("expression %s", src(e))
 }
@@ -693,6 +755,12 @@ func (t *tr) cond(e ast.Expr) string {
 			}
 		}
 	case *ast.CallExpr:
+		if mi, ok := t.ownMethod(v); ok && mi.retGo == "bool" {
+			return "(" + t.expr(v) + " = true)"
+		}
+		if sel, ok := v.Fun.(*ast.SelectorExpr); ok && t.typeOf(sel.X) == elemGo && elemBoolMethods[sel.Sel.Name] {
+			return "(" + t.expr(v) + " = true)"
+		}
 		// a boolean observation of the result of a method of a local object (`e.Pow(k).IsOne()`):
 		// an uninterpreted function `method_IsOne : Nat → Bool` of the resulting object's value
 		if sel, ok := v.Fun.(*ast.SelectorExpr); ok && len(v.Args) == 0 {
@@ -778,6 +846,10 @@ func leanType(goType string) string {
 		return "(List Int)"
 	case "[][]uint":
 		return "(List (List Nat))"
+	case "ff.Element":
+		return "(Option Nat)"
+	case "[]ff.Element":
+		return "(List (Option Nat))"
 	}
 	return "Nat"
 }
@@ -940,6 +1012,15 @@ func (t *tr) stmts(list []ast.Stmt, k []ast.Stmt) string {
 				if len(as) > 0 {
 					vals = append(vals, t.retTuple(as))
 					continue
+				}
+			}
+			if c, ok := r.(*ast.CallExpr); ok && len(v.Results) == 1 && len(t.resTypes) == 1 && t.resTypes[0] == elemGo && len(c.Args) == 0 {
+				if _, own := t.ownMethod(c); !own && t.typeOf(c) != elemGo {
+					// an element obtained from outside (`f.BaseField().Zero()`): an uninterpreted, possibly nil, element
+					if m, ok := t.selectorTyped(c, "", "(Option Nat)"); ok {
+						vals = append(vals, m)
+						continue
+					}
 				}
 			}
 			vals = append(vals, t.expr(r))
@@ -1125,6 +1206,12 @@ func (t *tr) stmts(list []ast.Stmt, k []ast.Stmt) string {
 			// if x := e; cond { … }: bind first
 			return t.stmts(append([]ast.Stmt{v.Init, &ast.IfStmt{Cond: v.Cond, Body: v.Body, Else: v.Else}}, rest...), k)
 		}
+		if be, ok := v.Cond.(*ast.BinaryExpr); ok && be.Op == token.LAND && t.mayPanic(be.Y) {
+			// `if A && B` with B possibly panicking: B is evaluated (and guarded) only when A holds
+			inner := &ast.IfStmt{Cond: be.Y, Body: v.Body, Else: v.Else}
+			outer := &ast.IfStmt{Cond: be.X, Body: &ast.BlockStmt{List: []ast.Stmt{inner}}, Else: v.Else}
+			return t.stmts(append([]ast.Stmt{outer}, rest...), k)
+		}
 		thenS := t.stmts(v.Body.List, cont(nil))
 		var elseS string
 		switch e := v.Else.(type) {
@@ -1240,6 +1327,36 @@ func (t *tr) stmts(list []ast.Stmt, k []ast.Stmt) string {
 		// `x.M(args)` as a statement on a local object variable x: the method may change x (and only x);
 		// x becomes an uninterpreted function of its old value and the arguments
 		if c, ok := v.X.(*ast.CallExpr); ok {
+			if mi, ok := t.ownMethod(c); ok && mi.retGo == "" {
+				// a mutating method of the own receiver: the fields it assigns get their new values
+				call := t.ownCall(mi, c)
+				if mi.partial {
+					call = t.bindPartial(call)
+				}
+				for _, a := range mi.assigned {
+					t.assigned[a] = true
+				}
+				g := t.takeGuards()
+				lhs := mi.assigned[0]
+				if len(mi.assigned) > 1 {
+					lhs = "(" + strings.Join(mi.assigned, ", ") + ")"
+				}
+				return t.wrapGuards(g, "let "+lhs+" := "+call+"; "+t.stmts(rest, k))
+			}
+			if sel, ok := c.Fun.(*ast.SelectorExpr); ok {
+				if ie, ok := sel.X.(*ast.IndexExpr); ok && t.typeOf(ie) == elemGo && !elemBoolMethods[sel.Sel.Name] {
+					// `b[i].M(args)`: the element object in slot i is changed in place; as a VALUE, slot i
+					// becomes method_M (old value) args   (element objects shared between slots or
+					// polynomials are not modelled)
+					val, _, _ := t.elemMethod(c)
+					as := &ast.AssignStmt{Lhs: []ast.Expr{ie}, Tok: token.ASSIGN, Rhs: []ast.Expr{ident("elem_tmp")}}
+					t.types["elem_tmp"] = elemGo
+					g0 := t.guards
+					t.guards = nil
+					body := t.stmts(append([]ast.Stmt{as}, rest...), k)
+					return t.wrapGuards(g0, "let elem_tmp : Option Nat := some "+val+"; "+body)
+				}
+			}
 			if m, recv, ok := t.localMethod(c); ok {
 				margs := append([]string{recv}, t.methodArgs(c.Args)...)
 				t.registerMethod(m, len(margs))
@@ -1464,6 +1581,14 @@ func (t *tr) forLoop(v *ast.ForStmt, label string, rest, k []ast.Stmt) string {
 			case *ast.CallExpr:
 				if mm, ok := mangle(e); ok {
 					occurs[mm] = true
+				}
+				if sel, ok := e.Fun.(*ast.SelectorExpr); ok && t.typeOf(sel.X) == elemGo {
+					occurs["method_"+sel.Sel.Name] = true
+				}
+				if mi, ok := t.ownMethod(e); ok {
+					for _, x := range mi.extra {
+						occurs[x] = true
+					}
 				}
 				if sel, ok := e.Fun.(*ast.SelectorExpr); ok && len(e.Args) == 0 {
 					if inner, ok := sel.X.(*ast.CallExpr); ok {
@@ -1867,7 +1992,7 @@ func translateFnMode(f *fn, known map[string]string, retTypes map[string]string,
 			t.params[n.Name] = true
 			t.types[n.Name] = ty
 			pTys = append(pTys, leanType(ty))
-			if ty == "uint" || ty == "int" || ty == "bool" || ty == "[2]uint" || ty == "Order" || isSliceTy(ty) {
+			if ty == "uint" || ty == "int" || ty == "bool" || ty == "[2]uint" || ty == "Order" || isSliceTy(ty) || ty == elemGo {
 				ps = append(ps, "("+n.Name+" : "+leanType(ty)+")")
 			} else {
 				t.types[n.Name] = "object"
@@ -1892,10 +2017,35 @@ func translateFnMode(f *fn, known map[string]string, retTypes map[string]string,
 					t.assigned[m] = true
 				}
 			}
+		case *ast.ExprStmt:
+			if c, ok := a.X.(*ast.CallExpr); ok {
+				if mi, ok := t.ownMethod(c); ok && mi.retGo == "" {
+					t.ownCall(mi, &ast.CallExpr{Fun: c.Fun}) // (registers the receiver fields as parameters)
+					for _, x := range mi.assigned {
+						t.assigned[x] = true
+					}
+				}
+				if sel, ok := c.Fun.(*ast.SelectorExpr); ok {
+					if ie, ok := sel.X.(*ast.IndexExpr); ok {
+						if m, ok := t.selector(stripIndex(ie)); ok && t.types[m] == "[]"+elemGo {
+							t.assigned[m] = true
+						}
+					}
+				}
+			}
 		}
 		return true
 	})
-	if f.decl.Type.Results != nil {
+	returnsRecv := t.recvName != "" && f.decl.Type.Results != nil && len(f.decl.Type.Results.List) == 1 &&
+		len(f.decl.Type.Results.List[0].Names) == 0 && src(f.decl.Type.Results.List[0].Type) == "*"+recvType(f.decl) && len(t.assigned) > 0
+	if returnsRecv {
+		// a method returning its receiver: the final values of the receiver fields it assigns
+		var rts []string
+		for _, a := range t.assignedSorted() {
+			rts = append(rts, leanType(t.types[a]))
+		}
+		t.retTy = strings.Join(rts, " × ")
+	} else if f.decl.Type.Results != nil {
 		var rts []string
 		for _, fld := range f.decl.Type.Results.List {
 			n := len(fld.Names)
@@ -1972,7 +2122,9 @@ func translateFnMode(f *fn, known map[string]string, retTypes map[string]string,
 		b.WriteString("\n")
 	}
 	retTy := ""
-	if f.decl.Type.Results != nil {
+	if returnsRecv {
+		retTy = " : " + t.retTy
+	} else if f.decl.Type.Results != nil {
 		var rts []string
 		for _, fld := range f.decl.Type.Results.List {
 			n := len(fld.Names)
@@ -2015,6 +2167,31 @@ func translateFnMode(f *fn, known map[string]string, retTypes map[string]string,
 			"x_"+strings.Join(names, " x_"), body)
 		return b.String(), false
 	}
+	if f.decl.Recv != nil {
+		mi := &methodInfo{lean: f.leanName(), extra: append([]string{}, t.extra...), extraTy: map[string]string{}, extraGo: map[string]string{},
+			nArgs: len(ps), partial: partial}
+		for _, e := range t.extra {
+			ty := "Nat"
+			if t.extraTy[e] != "" {
+				ty = t.extraTy[e]
+			}
+			mi.extraTy[e] = ty
+			if g, ok := t.types[e]; ok {
+				mi.extraGo[e] = g
+			}
+		}
+		if f.decl.Type.Results == nil || returnsRecv {
+			mi.assigned = t.assignedSorted()
+			for _, a := range mi.assigned {
+				mi.assTy = append(mi.assTy, t.types[a])
+			}
+		} else if rts := resultTypes(f.decl.Type); len(rts) == 1 {
+			mi.retGo = rts[0]
+		}
+		if len(ps) == len(pTys) && (mi.retGo != "" || len(mi.assigned) > 0) {
+			methodReg[f.key] = mi
+		}
+	}
 	doc := ""
 	if partial {
 		doc = " (may panic: `none` = run-time panic, index out of range or negative length)"
@@ -2033,6 +2210,10 @@ var translateList = []string{
 	"auxmath.Factorize",
 	"auxmath.NewCombinIter", "auxmath.CombinIter.Current", "auxmath.CombinIter.Active", "auxmath.CombinIter.Next",
 	"primefield.table.lookup",
+	"univariate.Polynomial.Ld", "univariate.Polynomial.coefPtr", "univariate.Polynomial.Coef", "univariate.Polynomial.coefIsZero",
+	"univariate.Polynomial.reslice", "univariate.Polynomial.IsZero", "univariate.Polynomial.IsOne",
+	"univariate.Polynomial.SetCoefPtr", "univariate.Polynomial.IncrementCoef", "univariate.Polynomial.DecrementCoef",
+	"univariate.Polynomial.removeCoef",
 }
 
 func writeCode(funcs map[string]*fn, path string) {
@@ -2123,7 +2304,11 @@ func translateSuffixMode(f *fn, spec suffixSpec, known map[string]string, retTyp
 		// result type of a suffix that may panic (objects are value words)
 		var rts []string
 		for _, rt := range resultTypes(f.decl.Type) {
-			rts = append(rts, t.leanTypeG(rt))
+			if rt == elemGo {
+				rts = append(rts, "Nat") // (in a suffix core an object is its value word)
+			} else {
+				rts = append(rts, t.leanTypeG(rt))
+			}
 		}
 		t.retTy = "Option (" + strings.Join(rts, " × ") + ")"
 	}
